@@ -108,7 +108,7 @@ class Fresh:
             p = rng.choice([f"cognito-identity.amazonaws.com/{k}", f"arn:aws:iam::{acct}:saml-provider/idp{k}", f"www.idp{k}.example"])
         else:
             p = rng.choice([
-                f"arn:aws:iam::{acct}:root", f"arn:aws:iam::{acct}:role/r{k}", f"arn:aws:iam::{acct}:user/Path/U.{k}", acct + str(k),
+                f"arn:aws:iam::{acct}:root", f"arn:aws:iam::{acct}:role/r{k}", f"arn:aws:iam::{acct}:user/Path/U.{k}", acct + str(k), acct,
                 f"arn:aws:sts::{acct}:assumed-role/R{k}/s", f"AIDA{k:08d}", f"p{k} (x+y)[z]", f"中{k}", f"*{k}",
             ])
         self.used.append(p)
@@ -315,12 +315,33 @@ def ascii_swapcase(s):
     return "".join(c.swapcase() if c.isascii() else c for c in s)
 
 
+def other_spellings(p):
+    """Texts that NAME the same principal to IAM (or look as if they did) and are different strings: membership in the whitelist is
+    by string, so none of them whitelists `p` (seeded change C16-r5m2 treated the bare account id and its root ARN as one entry)."""
+    import re
+    out = []
+    m = re.fullmatch(r"arn:aws:iam::(\d{12}):root", p)
+    if m:
+        out += [m.group(1), f"arn:aws-cn:iam::{m.group(1)}:root", p + "/", f"arn:aws:iam::{m.group(1)}:ROOT", f"arn:aws:iam::{m.group(1)}:*"]
+    if re.fullmatch(r"\d{12}", p):
+        out += [f"arn:aws:iam::{p}:root", f"arn:aws:iam::{p}:*", p + " ", "0" + p, p[:-1]]
+    m = re.fullmatch(r"arn:aws:(iam|sts)::(\d{12}):(.+)", p)
+    if m and not out:
+        out += [m.group(2), f"arn:aws:iam::{m.group(2)}:root", p.replace("arn:aws:", "arn:aws-us-gov:", 1)]
+    if p.endswith(".amazonaws.com"):
+        out += [p[: -len(".amazonaws.com")], p + ".", p.replace(".amazonaws.com", ".amazonaws.com.cn")]
+    return out
+
+
 def gen_whitelist(rng, ps):
     n = rng.choice([0, 1, 1, 2, 3, 5])
     wl = []
     for _ in range(n):
         r = rng.random()
-        if ps and r < 0.55:
+        alias = [a for p in ps if isinstance(p, str) for a in other_spellings(p)] if ps and r < 0.2 else []
+        if alias and rng.random() < 0.6:
+            wl.append(rng.choice(alias))
+        elif ps and r < 0.55:
             wl.append(rng.choice(ps))
         elif ps and r < 0.7:
             wl.append(ascii_swapcase(rng.choice(ps)))
